@@ -824,6 +824,143 @@ func (c *Ctx) reachingStores(fn *ssa.Function, a *ssa.Alloc, use ssa.Instruction
 	return out
 }
 
+// reachingFieldStores: the same for one field of a local record that is filled field by field
+// (`tok.Type = a; if c { tok.Type = b }`): the assignments to the field that can be the last one
+// before use. nil when the record is also assigned as a whole or a cycle is met.
+func (c *Ctx) reachingFieldStores(fn *ssa.Function, a *ssa.Alloc, field string, use ssa.Instruction) []storeAlt {
+	if a.Referrers() == nil {
+		return nil
+	}
+	var stores []*ssa.Store
+	fas := map[ssa.Value]bool{}
+	for _, r := range *a.Referrers() {
+		switch x := r.(type) {
+		case *ssa.Store:
+			if x.Addr == ssa.Value(a) {
+				// assigned as a whole: ends what is known about the field (if such an
+				// assignment can be the last one before use, the answer is "unknown")
+				stores = append(stores, x)
+				fas[x.Addr] = true
+			}
+		case *ssa.FieldAddr:
+			if fieldName(x.X.Type(), x.Field) != field || x.Referrers() == nil {
+				continue
+			}
+			fas[x] = true
+			for _, fr := range *x.Referrers() {
+				if st, ok := fr.(*ssa.Store); ok && st.Addr == ssa.Value(x) {
+					stores = append(stores, st)
+				}
+			}
+		}
+	}
+	isStore := func(in ssa.Instruction) bool {
+		st, ok := in.(*ssa.Store)
+		return ok && fas[st.Addr]
+	}
+	// killedIn: the block assigns the variable before reaching `upto` (nil: anywhere in it)
+	killedIn := func(b *ssa.BasicBlock, from int, upto ssa.Instruction) bool {
+		for i := from; i < len(b.Instrs); i++ {
+			if b.Instrs[i] == upto {
+				return false
+			}
+			if isStore(b.Instrs[i]) {
+				return true
+			}
+		}
+		return false
+	}
+	t := c.T(fn)
+	var out []storeAlt
+	for _, s := range stores {
+		if killedIn(s.Block(), idxInBlock(s)+1, use) {
+			continue
+		}
+		var common map[string]bool
+		nPaths := 0
+		fail := false
+		onPath := map[*ssa.BasicBlock]bool{}
+		var walk func(b *ssa.BasicBlock, lits []string)
+		walk = func(b *ssa.BasicBlock, lits []string) {
+			if fail {
+				return
+			}
+			if b == use.Block() && (b != s.Block() || len(lits) > 0 || idxInBlock(s) < idxInBlock(use)) {
+				if b != s.Block() || len(lits) > 0 {
+					if killedIn(b, 0, use) {
+						return
+					}
+				}
+				nPaths++
+				if nPaths > 512 {
+					fail = true
+					return
+				}
+				set := map[string]bool{}
+				for _, l := range lits {
+					set[l] = true
+				}
+				if common == nil {
+					common = set
+				} else {
+					for l := range common {
+						if !set[l] {
+							delete(common, l)
+						}
+					}
+				}
+				return
+			}
+			if onPath[b] {
+				fail = true
+				return
+			}
+			onPath[b] = true
+			defer delete(onPath, b)
+			for _, nx := range b.Succs {
+				if nx != use.Block() && nx != s.Block() && killedIn(nx, 0, nil) {
+					continue
+				}
+				if nx == s.Block() {
+					fail = true // the assignment is in a cycle
+					return
+				}
+				nl := append([]string{}, lits...)
+				if eds := c.PC(fn).edgeDNF(b, nx); len(eds) == 1 {
+					for _, l := range eds[0] {
+						nl = append(nl, t.Canon(l))
+					}
+				}
+				if len(nl) == len(lits) {
+					nl = append(nl, "\x00") // an unconditional edge still makes the path non-empty
+				}
+				walk(nx, nl)
+			}
+		}
+		walk(s.Block(), nil)
+		if fail {
+			return nil
+		}
+		if nPaths == 0 {
+			continue
+		}
+		must := append([]string{}, c.mustLits(fn, s.Block())...)
+		for l := range common {
+			if l != "\x00" {
+				must = append(must, l)
+			}
+		}
+		sort.Strings(must)
+		out = append(out, storeAlt{val: s.Val, st: s, must: must})
+	}
+	for _, o := range out {
+		if o.st.Addr == ssa.Value(a) {
+			return nil
+		}
+	}
+	return out
+}
+
 // memVar: when v reads a local variable that lives in memory — the variable itself or one of
 // its fields — the variable.
 func memVar(v ssa.Value) *ssa.Alloc {
@@ -994,5 +1131,205 @@ func (c *Ctx) virtualCallsRec(fn, target *ssa.Function, depth int, stack map[*ss
 			out = append(out, vc)
 		}
 	}
+	return out
+}
+
+// originLeaf: where a value ultimately comes from — a value of some function that is not a
+// merge, a result of a repo function, or a field of a local record. term is the value spelled
+// in the terms of the function the search started in (parameters of helpers on the way replaced
+// by the arguments they were called with).
+type originLeaf struct {
+	fn   *ssa.Function
+	v    ssa.Value
+	term string
+}
+
+func (c *Ctx) originLeaves(fn *ssa.Function, v ssa.Value) []originLeaf {
+	var out []originLeaf
+	seen := map[ssa.Value]bool{}
+	type callCtx struct {
+		fn   *ssa.Function
+		call ssa.CallInstruction
+	}
+	leaf := func(f *ssa.Function, x ssa.Value, chain []callCtx) originLeaf {
+		t := c.term(f, x)
+		for i := len(chain) - 1; i >= 0; i-- {
+			t = c.substParams(chain[i].fn, chain[i].call, t)
+		}
+		return originLeaf{f, x, t}
+	}
+	var walk func(f *ssa.Function, x ssa.Value, depth int, chain []callCtx)
+	var walkField func(f *ssa.Function, rec ssa.Value, field string, depth int, chain []callCtx)
+	storesTo := func(a *ssa.Alloc, field string) (fieldVals, wholeVals []ssa.Value) {
+		if a.Referrers() == nil {
+			return
+		}
+		for _, r := range *a.Referrers() {
+			switch y := r.(type) {
+			case *ssa.Store:
+				if y.Addr == ssa.Value(a) {
+					wholeVals = append(wholeVals, y.Val)
+				}
+			case *ssa.FieldAddr:
+				if field == "" || fieldName(y.X.Type(), y.Field) != field || y.Referrers() == nil {
+					continue
+				}
+				for _, r2 := range *y.Referrers() {
+					if st, ok := r2.(*ssa.Store); ok && st.Addr == ssa.Value(y) {
+						fieldVals = append(fieldVals, st.Val)
+					}
+				}
+			}
+		}
+		return
+	}
+	walkField = func(f *ssa.Function, rec ssa.Value, field string, depth int, chain []callCtx) {
+		if depth > 12 {
+			out = append(out, leaf(f, rec, chain))
+			return
+		}
+		switch x := rec.(type) {
+		case *ssa.Phi:
+			for _, e := range x.Edges {
+				walkField(f, e, field, depth+1, chain)
+			}
+			return
+		case *ssa.UnOp:
+			if a, ok := x.X.(*ssa.Alloc); ok && x.Op == token.MUL {
+				fv, wv := storesTo(a, field)
+				for _, v2 := range fv {
+					walk(f, v2, depth+1, chain)
+				}
+				for _, v2 := range wv {
+					walkField(f, v2, field, depth+1, chain)
+				}
+				if len(fv)+len(wv) == 0 {
+					out = append(out, leaf(f, rec, chain)) // never assigned: the zero value
+				}
+				return
+			}
+		case *ssa.Extract:
+			if call, ok := x.Tuple.(*ssa.Call); ok {
+				if g := callee(call); g != nil && c.W.InRepo(g) && len(g.Blocks) > 0 {
+					for _, r := range returnsOf(g) {
+						if x.Index < len(r.Results) {
+							if c.mayBeSuccessRet(g, r) {
+								walkField(g, r.Results[x.Index], field, depth+1, append(append([]callCtx{}, chain...), callCtx{f, call}))
+							}
+						}
+					}
+					return
+				}
+			}
+		case *ssa.Call:
+			if g := callee(x); g != nil && c.W.InRepo(g) && len(g.Blocks) > 0 && g.Signature.Results().Len() == 1 {
+				for _, r := range returnsOf(g) {
+					if c.mayBeSuccessRet(g, r) {
+						walkField(g, r.Results[0], field, depth+1, append(append([]callCtx{}, chain...), callCtx{f, x}))
+					}
+				}
+				return
+			}
+		}
+		out = append(out, leaf(f, rec, chain))
+	}
+	walk = func(f *ssa.Function, x ssa.Value, depth int, chain []callCtx) {
+		if seen[x] || depth > 12 {
+			return
+		}
+		seen[x] = true
+		switch y := x.(type) {
+		case *ssa.Phi:
+			for _, e := range y.Edges {
+				walk(f, e, depth+1, chain)
+			}
+			return
+		case *ssa.Extract:
+			if call, ok := y.Tuple.(*ssa.Call); ok {
+				if g := callee(call); g != nil && c.W.InRepo(g) && len(g.Blocks) > 0 {
+					for _, r := range returnsOf(g) {
+						if y.Index < len(r.Results) {
+							if c.mayBeSuccessRet(g, r) {
+								walk(g, r.Results[y.Index], depth+1, append(append([]callCtx{}, chain...), callCtx{f, call}))
+							}
+						}
+					}
+					return
+				}
+			}
+		case *ssa.Call:
+			if g := callee(y); g != nil && c.W.InRepo(g) && len(g.Blocks) > 0 && g.Signature.Results().Len() == 1 && !y.Call.IsInvoke() {
+				for _, r := range returnsOf(g) {
+					if c.mayBeSuccessRet(g, r) {
+						walk(g, r.Results[0], depth+1, append(append([]callCtx{}, chain...), callCtx{f, y}))
+					}
+				}
+				return
+			}
+		case *ssa.Field:
+			walkField(f, y.X, fieldName(y.X.Type(), y.Field), depth+1, chain)
+			return
+		case *ssa.UnOp:
+			if y.Op == token.MUL {
+				if fa, ok := y.X.(*ssa.FieldAddr); ok {
+					if a, ok := fa.X.(*ssa.Alloc); ok {
+						fld := fieldName(fa.X.Type(), fa.Field)
+						fv, wv := storesTo(a, fld)
+						if len(fv)+len(wv) > 0 {
+							for _, v2 := range fv {
+								walk(f, v2, depth+1, chain)
+							}
+							for _, v2 := range wv {
+								walkField(f, v2, fld, depth+1, chain)
+							}
+							return
+						}
+					}
+				}
+				if a, ok := y.X.(*ssa.Alloc); ok {
+					// a local variable: what was assigned to it as a whole (for a record, the record
+					// it was copied from — later updates of single fields do not change where it is from)
+					_, wv := storesTo(a, "")
+					if len(wv) > 0 {
+						for _, v2 := range wv {
+							walk(f, v2, depth+1, chain)
+						}
+						return
+					}
+				}
+				// through a pointer that a repo function returned: the variable it points to
+				if _, isFA := y.X.(*ssa.FieldAddr); !isFA {
+					if _, isA := y.X.(*ssa.Alloc); !isA && depth < 8 {
+						var ptrs []originLeaf
+						for _, pl := range c.originLeaves(f, y.X) {
+							if !isNilConst(pl.v) { // a nil pointer is never read through
+								ptrs = append(ptrs, pl)
+							}
+						}
+						all := len(ptrs) > 0
+						for _, pl := range ptrs {
+							if _, ok := pl.v.(*ssa.Alloc); !ok {
+								all = false
+							}
+						}
+						if all {
+							for _, pl := range ptrs {
+								_, wv := storesTo(pl.v.(*ssa.Alloc), "")
+								if len(wv) == 0 {
+									out = append(out, pl)
+								}
+								for _, v2 := range wv {
+									walk(pl.fn, v2, depth+1, nil)
+								}
+							}
+							return
+						}
+					}
+				}
+			}
+		}
+		out = append(out, leaf(f, x, chain))
+	}
+	walk(fn, v, 0, nil)
 	return out
 }
